@@ -7,6 +7,7 @@ pub mod c02;
 pub mod c03;
 pub mod c05;
 pub mod c19;
+pub mod c20;
 pub mod mfamily;
 pub mod c04;
 pub mod c06;
@@ -17,6 +18,9 @@ pub mod c14;
 pub mod c15;
 pub mod c16;
 pub mod c17;
+pub mod c18;
+pub mod c09;
+pub mod c10;
 pub mod c11;
 pub mod c12;
 
@@ -44,6 +48,7 @@ props! {
     "C03" => c03,
     "C05" => c05,
     "C19" => c19,
+    "C20" => c20,
     "C04" => c04,
     "C06" => c06,
     "C07" => c07,
@@ -53,6 +58,9 @@ props! {
     "C15" => c15,
     "C16" => c16,
     "C17" => c17,
+    "C18" => c18,
+    "C09" => c09,
+    "C10" => c10,
     "C11" => c11,
     "C12" => c12,
 }
@@ -64,8 +72,14 @@ pub fn child(args: &[String]) -> i32 {
         return 2;
     }
     let (from, to): (u64, u64) = (args[2].parse().unwrap(), args[3].parse().unwrap());
+    if args[1].starts_with("hostile/") {
+        return c20::child(&args[1], from, to);
+    }
+    if let Some(part) = args[1].strip_prefix("decode/") {
+        return c10::child(&args[0], part, from, to);
+    }
     match args[0].as_str() {
-        "C03" | "C05" | "C19" => mfamily::child(&args[0], &args[1], from, to),
+        "C03" | "C05" | "C19" | "C20" => mfamily::child(&args[0], &args[1], from, to),
         other => { eprintln!("no child handler for {other}"); 2 }
     }
 }
